@@ -94,6 +94,9 @@ func (e engine) Execute(prop string, plan sim.Plan, seed uint64, res *sim.RunRes
 	p := plan.(*Plan)
 	debugLogging = p.Debug
 	setupProcess()
+	defer func() {
+		stopBooted()
+	}()
 	res.Ops = len(p.Ops)
 	res.Sample = planSummary(p)
 	root, err := os.MkdirTemp("", "verif-nrisim-*")
